@@ -7,6 +7,7 @@ pub mod diag;
 pub mod codes;
 pub mod modelval;
 pub mod readers;
+pub mod tables;
 pub mod writers;
 
 pub fn run(id: &str, ctx: &Ctx) -> (CheckMeta, Outcome) {
@@ -15,6 +16,11 @@ pub fn run(id: &str, ctx: &Ctx) -> (CheckMeta, Outcome) {
         "C02" => readers::c02(ctx),
         "C03" => codes::c03(ctx),
         "C04" => codes::c04(ctx),
+        "C05" => tables::c05(ctx),
+        "C06" => codes::c06(ctx),
+        "C07" => readers::c07(ctx),
+        "C09" => readers::c09(ctx),
+        "C12" => writers::c12(ctx),
         _ => {
             println!("unknown property {}", id);
             std::process::exit(2);
@@ -35,6 +41,7 @@ pub fn replay_file(path: &str) -> i32 {
             "reader" => crate::rdsys::replay(r),
             "writer" => crate::wrsys::replay(r),
             "item" => crate::streams::replay_item(r, &diag),
+            "len" => codes::replay_len(r),
             k => (vec![format!("unknown replay kind {:?}", k)], false),
         }
     };
